@@ -89,8 +89,10 @@ package ws
 // it does in response, and no frame the read pump still holds, can see an open connection after the report
 //@   atcall ReportConnectionError [C13,C12] T4-flag-first: w.connectionClosed && w.connectionClosedError == err && @WSINV(w)
 //@   modifies @wsst(w)
-//@ func (w *WebsocketConnection).CloseDataConnection(closeCode, reason) entry [C13,C08]
-//@   ensures [C13] T1-closed: w.connectionClosed
+// (C10: 'unpair disconnects' ends here - the hub's CloseConnection reaches the transport through this function, and
+// closed means released: the object invariant T2)
+//@ func (w *WebsocketConnection).CloseDataConnection(closeCode, reason) entry [C13,C08,C10]
+//@   ensures [C13,C10] T1-closed: w.connectionClosed
 // (C08: a report from inside a deliberate close re-enters CloseConnection under its sync.Once - the caller wedges)
 //@   ensures [C13,C08] T1-silent: w.dataProcessing.$errReports == old(w.dataProcessing.$errReports)
 //@   modifies @wsst(w)
